@@ -31,7 +31,11 @@
    gsort.gotmpl per-sorter block                       render_sorter
 
    Behaviour layer.  An element of the generated slice type is modelled by the list of the
-   values of its struct fields in declaration order.  Ordered Go types (strings, signed and
+   values of the VIEWS of its struct fields in declaration order: two slots per field, the
+   field read plainly (slot 2*idx) and read through the accessor a tag names (slot 2*idx+1;
+   the property's quantifier knows one accessor, String()).  Which view a key reads is decided
+   per tag (`slot`), so one field can be a plain key of one sorter and a String() key of
+   another.  Ordered Go types (strings, signed and
    unsigned integers, NaN-free floats, results of String()) are all strict total orders whose
    `==` is the order's equality; the harness maps each such value to its rank, an integer, so
    an ordered key is a Z; a bool key is a bool.  `getz`/`getb` read field i as an ordered /
@@ -108,12 +112,18 @@ Definition sd_name (d : sdesc) : string :=
   if sd_pointer d then substring 1 (String.length (sd_sorter d) - 1) (sd_sorter d)
   else sd_sorter d.
 
-(* PriorityTree *)
+(* PriorityTree.  A compare line reads a VIEW of a struct field: the field itself (`s[i].F`) or
+   the result of the tag's accessor (`s[i].F.String()`).  The same field may be read through
+   different views by different sorters (one tag with, another without accessor), so an element
+   has one slot per view, not per field: slot 2*idx is field idx read plainly, slot 2*idx+1 is
+   field idx read through its accessor (see `elem` below). *)
+Definition slot (idx : nat) (acc : string) : nat :=
+  if String.eqb acc "" then 2 * idx else S (2 * idx).
 Record cmpline := { cl_isbool : bool; cl_acc : string; cl_idx : nat }.
 Definition accessor (f : sfd) : string :=
   if String.eqb (sf_acc f) "" then sf_name f else sf_name f ++ "." ++ sf_acc f.
 Definition line_of (f : sfd) : cmpline :=
-  {| cl_isbool := sf_isbool f; cl_acc := accessor f; cl_idx := sf_idx f |}.
+  {| cl_isbool := sf_isbool f; cl_acc := accessor f; cl_idx := slot (sf_idx f) (sf_acc f) |}.
 Definition priority_tree (d : sdesc) : list cmpline := map line_of (sort_prio (sd_fields d)).
 
 (* CompareLine.String: the current (repaired) rendering and the pinned one *)
@@ -202,7 +212,7 @@ Definition gen_less_orig (ty : string) (fs : list fieldT) (name : string)
   end.
 
 (* ------------------------------------------------------------------ specification *)
-(* A key reads one field as an ordered value or as a bool (false before true). *)
+(* A key reads one view (slot) of a field as an ordered value or as a bool (false before true). *)
 Inductive key := KOrd (i : nat) | KBool (i : nat).
 Definition key_rank (k : key) (e : elem) : Z :=
   match k with
@@ -227,7 +237,8 @@ Fixpoint tagged_from (idx : nat) (name : string) (fs : list fieldT) : list (Z * 
   match fs with
   | [] => []
   | f :: r =>
-      map (fun t => (tg_prio t, if fd_isbool f then KBool idx else KOrd idx))
+      map (fun t => (tg_prio t, if fd_isbool f then KBool (slot idx (tg_acc t))
+                                else KOrd (slot idx (tg_acc t))))
           (filter (fun t => String.eqb (tg_sorter t) name) (fd_tags f))
       ++ tagged_from (S idx) name r
   end.
